@@ -4,6 +4,7 @@ Statements quantify over every text (`List Char`), every width and every
 character-width function `cw`.
 -/
 import ClapProofs.Lemmas.Wrap
+import ClapProofs.Lemmas.WrapWidth
 namespace Clap.C20
 open Clap TextWrap
 
@@ -97,5 +98,68 @@ theorem displayWidth_sgr_zero (cw : Char → Nat) (params rest : Str) (h : ∀ c
   simp [this, aux params h]
 
 example : displayWidth (fun _ => 1) "\x1b[1;31mab\x1b[0m".toList = 2 := by decide
+
+/-! #### 4. within the requested width -/
+
+theorem findWords_plain (cw : Char → Nat) (line : Str) (hp : Plain cw line) : ∀ w ∈ findWords line, Plain cw w := by
+  intro w hw c hc
+  apply hp c
+  rw [← findWords_flatten line]
+  exact List.mem_flatten.2 ⟨w, hw, hc⟩
+
+/-- the hanging indent `LineWrapper` carries over to continuation lines: the first word when it is all whitespace -/
+def indentOf (words : List Str) : Nat :=
+  match words with
+  | w :: _ => if w.all isWs then w.length else 0
+  | [] => 0
+
+/-- **no line is wider than requested unless a single word is**: wrapping one line of plain text
+(printable, one column and one byte per character, spaces the only whitespace) at ANY width yields
+lines each of which - trailing spaces aside - either fits the width or is no longer than the hanging
+indent plus one word of the input. `linesOf` groups the emitted pieces between the `"\n"` pieces. -/
+theorem wrap_line_width (cw : Char → Nat) (hard : Nat) (line : Str) (hp : Plain cw line) :
+    ∀ l ∈ linesOf ((LW.new hard).wrap cw (findWords line)).2.reverse,
+      lineTrimLen l ≤ hard ∨ ∃ w ∈ findWords line, lineTrimLen l ≤ indentOf (findWords line) + (trimSp w).length := by
+  have hwords := findWords_plain cw line hp
+  unfold LW.wrap
+  simp only [LW.new, List.reverse_reverse]
+  cases hws : findWords line with
+  | nil =>
+    intro l hl
+    simp [wrapLoop, linesOf] at hl
+    subst hl
+    exact Or.inl (Nat.zero_le _)
+  | cons w0 rest =>
+    simp only
+    have hg := wrapLoop_good cw (w0 :: rest) (w0 :: rest)
+      ⟨hard, 0, some (if w0.all isWs = true then w0 else [])⟩ true []
+      (fun w hw => ⟨hwords w (by rw [hws]; exact hw), hw⟩)
+      (by intro e he; simp at he)
+      (by
+        intro c hc
+        simp only [Option.some.injEq] at hc
+        subst hc
+        split
+        · exact hwords w0 (by rw [hws]; exact List.mem_cons_self)
+        · intro x hx; simp at hx)
+      (by intro _; exact ⟨rfl, rfl⟩)
+      (by intro h; simp at h)
+      (by
+        intro l hl
+        simp [linesOf] at hl
+        subst hl
+        exact Or.inl (Nat.zero_le _))
+    intro l hl
+    have := hg l hl
+    simp only [carryLen, Option.getD_some, indentOf] at this ⊢
+    rcases this with h | ⟨w, hw, h⟩
+    · exact Or.inl h
+    · refine Or.inr ⟨w, hw, ?_⟩
+      split at h
+      · next hall => simp only [hall, ↓reduceIte]; exact h
+      · next hall => simp only [hall, Bool.false_eq_true, ↓reduceIte] ; simpa using h
+
+/-- non-vacuity: "aaa bbb ccc" at width 7 -/
+example : (linesOf ((LW.new 7).wrap (fun _ => 1) (findWords "aaa bbb ccc".toList)).2.reverse).map lineTrimLen = [3, 7] := by decide
 
 end Clap.C20
